@@ -33,6 +33,7 @@ BOUNDS_TBL = {
     "text": (None, None),
     "version": (None, None),
     "envelope": (4, 5),
+    "confusable": (None, None),
 }
 BOUNDS = {"quick": "deviation bounds per node scenario: " + ", ".join(f"{k}={'full' if v[0] is None else v[0]}" for k, v in BOUNDS_TBL.items()),
           "thorough": "deviation bounds per node scenario: " + ", ".join(f"{k}={'full' if v[1] is None else v[1]}" for k, v in BOUNDS_TBL.items())}
